@@ -85,6 +85,11 @@ Inductive bread := RdU (w : nat) | RdKey | RdValue.
    `put(bytes)` / `put_slice(bytes)` *)
 Inductive bwrite := WrU (w : nat) | WrBytes.
 
+(* the statements of Decoder::decode: parse the header when none is pending (waiting for
+   24 bytes first); answer an announced body above the item size limit at once; wait for
+   the whole body; hand over to parse_request *)
+Inductive dstep := StHeader | StTooLarge | StNeedMore | StParse.
+
 (* `let x = e;` evaluated where it stands *)
 Definition rbind {A B} (a : option A) (f : A -> option B) : option B :=
   match a with Some x => f x | None => None end.
